@@ -61,7 +61,7 @@ def _args_equal(got, exp):
     return sx.And(conds)
 
 
-def e_hist(kinds, groups, tls=False, mask=None, raise_at=None, split_frag=False):
+def e_hist(kinds, groups, tls=False, mask=None, raise_at=None, split_frag=False, gapmax=8):
     """kinds: event kinds; groups: for every event after the first, 1 = same TCP segment as the previous one, 0 = own
     segment after a symbolic gap.  mask: which callbacks are set (None = all but on_cont_message).  raise_at: index into
     the expected callback list of the callback that raises."""
@@ -87,7 +87,7 @@ def e_hist(kinds, groups, tls=False, mask=None, raise_at=None, split_frag=False)
     script, arrivals, t = [], [], 0
     for j, (wire, exp) in enumerate(segments):
         gap = sx.sym_real("g%d" % j)
-        sx.assume(sx.And(gap > 0, gap < 8))
+        sx.assume(sx.And(gap > 0, gap < gapmax))
         script.append((gap, wire))
         t = t + gap
         arrivals.append(t)
@@ -169,6 +169,12 @@ def obligations(tier):
         hist.append(dict(kinds=["G", "P", "G"], groups=[0, 1], tls=tls))
         hist.append(dict(kinds=["F"], groups=[], tls=tls, split_frag=True))
         hist.append(dict(kinds=["P", "F", "T"], groups=[1, 1], tls=tls, split_frag=True))
+    if thorough:
+        # arrival gaps up to 25 s: the loop's 10 s select timeout falls inside them (more ordering classes per history)
+        for e in (1, 2):
+            for kinds in itertools.product(KINDS, repeat=e):
+                for tls in (False, True):
+                    hist.append(dict(kinds=list(kinds), groups=[0] * (e - 1), tls=tls, gapmax=25))
     subset = []
     for kinds, groups in ((["T", "P", "B"], [1, 0]), (["O", "F"], [0]), (["B", "T", "O", "P"], [1, 1, 1])):
         for mask in range(0, 128):
